@@ -62,6 +62,12 @@ func checkC13(c *Ctx) {
 	c.Rule("C13-R18", "cell content is written only to the cells that changed: the cursor address sent before a cell is expanded from its coordinates each time, never taken from a cache of address strings kept by the screen (colliding keys or a stale geometry send content to a cell that did not change)")
 	c.Expect("C13-R18", 1)
 	checkAddressesNotCached(c, p, "C13-R18")
+	c.Rule("C13-R19", "content is written to the changed cell, not its neighbour: the cached cursor column advances by the cell's width, never by a measure of the bytes written (the charset switches around an ACS glyph are not columns, and a wrong column suppresses the next cursor address)")
+	c.Expect("C13-R19", 1)
+	checkColumnAdvancedByCellWidth(c, p, "C13-R19")
+	c.Rule("C13-R20", "the column covered by a wide rune is not written on its own: every way round the column loop of draw passes drawCell, whose answer is the step (a continue for locked cells in front of it visits the covered, permanently dirty column)")
+	c.Expect("C13-R20", 1)
+	checkColumnLoopStepsByDrawCell(c, p, "C13-R20")
 	c.Rule("C13-R10", "a cell marked dirty (marker rune zero: SetDirty(true), Invalidate, UnlockCell) is reported dirty whatever it holds, also one nothing was ever stored in; combining runes are compared in full")
 	c.Expect("C13-R10", 2)
 	c.asRule("C08-R9", "C13-R10", func() { checkDirtyDecisions(c, p, "C08-R9") })
